@@ -17,12 +17,7 @@ def core_fragment():
             ('bind', 'x', None, ('exists', 'xx', None, ('and', ('jump', 'xx', ('EF', X)), ('AW', XX, ('EF', ('and', X, P1)))))), ('iff', ('EF', P0), ('EU', ('true',), P0)),
             ('xor', ('AG', P0), ('AW', P0, ('false',)))]
 
-def operand_pairs(ops=('EU', 'AW')):
-    """binary fragment operators over every pair of state predicates that are conjunctions of literals: the shapes where a
-    steady state satisfies the left operand only and a branching state sees both it and the right operand"""
-    N0, N1 = ('not', P0), ('not', P1)
-    A = [P0, N0, P1, N1, ('and', P0, P1), ('and', N0, P1), ('and', P0, N1), ('and', N0, N1)]
-    return [(b, l, r) for b in ops for l in A for r in A if l != r]
+operand_pairs = G.operand_pairs
 
 def core_other():
     return [('EX', P0), ('AX', P0), ('AF', P0), ('EG', P0), ('AU', P0, P1), ('EW', P0, P1), ('bind', 'x', None, ('EX', X)), ('exists', 'x', None, ('jump', 'x', ('AF', ('and', X, P0)))),
